@@ -573,6 +573,11 @@ pub fn c07(ctx: &Ctx) -> Report {
                     m2s.push(m1 ^ (1 << a));
                     for b in (a + 1)..12 {
                         m2s.push(m1 ^ (1 << a) ^ (1 << b));
+                        for c in (b + 1)..12 {
+                            if (a + b + c) % 2 == 0 {
+                                m2s.push(m1 ^ (1 << a) ^ (1 << b) ^ (1 << c));
+                            }
+                        }
                     }
                 }
                 m2s.retain(|m| *m != 0);
